@@ -28,6 +28,8 @@ pub static SPECS: &[LangSpec] = &[
       "foo(bar, /* c */ baz,);\nconsole.log('é', `t${x}`);\n",
       // a NAMED LEAF whose text ends with a line break (string_fragment "a\n")
       "let t = `a\n`;\n",
+      // a lone carriage return inside a line (it ends no line: rows count LF only)
+      "let a = 1;\rlet b = 2;\n",
     ],
   },
   LangSpec {
@@ -67,6 +69,8 @@ pub static SPECS: &[LangSpec] = &[
       "x = a not in b\ny = a is not b\nif a not in (b, c): pass\n",
       // a NAMED LEAF whose text ends with a line break (string_content "a\n")
       "s = '''a\n'''\n",
+      // CRLF file whose comment token swallows the CR
+      "x = 1  # note\r\ny = 2\r\n",
     ],
   },
   LangSpec {
